@@ -114,7 +114,8 @@ def scanRecs (R : Nat) (recs : List Rec) : List (Bytes × Bytes × Nat) :=
 inductive DelOutcome where
   | ok          -- the delete is applied
   | fail        -- non-CAS error: not applied, raw key remembered in `lastCompactFailedRawKey`
-  | failCas     -- error matching ErrCASFailed: not applied, raw key not remembered
+  | failCas     -- error matching ErrCASFailed: not applied; remembered by `compactKey` (plain delete),
+                -- not remembered by `compactCurrent` (compare-and-delete: the key was written again)
   deriving Repr, DecidableEq
 
 structure CompState where
@@ -127,14 +128,17 @@ structure CompState where
 
 /-- Execute the delete actions in order against the live store. `mask i` is the outcome the
 engine gives to the `i`-th delete *call* (skipped actions make no call). A compare-and-delete whose
-value no longer matches is a CAS failure whatever the mask says. -/
+value no longer matches is a CAS failure whatever the mask says. A failed plain delete (`compactKey`)
+always remembers its raw key; a compare-and-delete (`compactCurrent`, through `updateSkippedRawKey`)
+does so only for errors outside the failed-condition class. -/
 def runDelete (mask : Nat → DelOutcome) (st : CompState) : Act → CompState
   | .del ik raw =>
     if st.lastFailed.length > 0 && st.lastFailed == raw then st
     else match mask st.calls with
       | .ok => { st with store := st.store.erase ik, calls := st.calls + 1, trace := st.trace ++ [(false, ik)] }
       | .fail => { st with lastFailed := raw, calls := st.calls + 1, trace := st.trace ++ [(false, ik)] }
-      | .failCas => { st with calls := st.calls + 1, trace := st.trace ++ [(false, ik)] }
+      -- `compactKey` remembers the raw key on ANY error, the failed-condition class included
+      | .failCas => { st with lastFailed := raw, calls := st.calls + 1, trace := st.trace ++ [(false, ik)] }
   | .delcur ik v raw =>
     if st.lastFailed.length > 0 && st.lastFailed == raw then st
     else match mask st.calls with
